@@ -6,11 +6,36 @@ Only property theorems and non-vacuity examples live here; helper lemmas are in
 `encode_parallel`'s indexed collect) for every `u32` width/height, every support record with a
 `NonZeroU8` split height and every preferred fragment size — no bound on sizes.
 
-What is NOT proved here: that each encoder family is row-group local (`RowGroupLocal`, an
-assumption validated on every run by the byte comparison of the tie), and anything about real
-threads (rayon, `Mutex`): the scheduler is an arbitrary permutation of job completions.
+Row-group locality of the encoders is a THEOREM about the data-flow model `EncRows.lean` (which
+input pixels reach which per-unit encode call, in which order the results are written), for
+ARBITRARY per-unit functions: `row_group_local_uncompressed / _subsample / _block`; the families
+that are not row-group local (Bayer row index, bi-planar, error diffusion) are never split:
+`stateful_families_unsplit`; `fragmentwise_eq_whole_all_families` puts it together over the pinned
+tables (`family_table`, complete evaluation of 73 formats x 12 colours x 4 options).
+
+What REMAINS ASSUMED (not proved here, validated on every run by the byte comparison of the tie):
+ 1. `EncRows.Runs`: that the Rust body of every encoder of the table is an instance of the
+    data-flow family named there (the loops of `for_each_chunk`, `process_subsample`,
+    `for_each_f32_rgba_rows` + `block_universal`, `bi_planar_universal`,
+    `uncompressed_universal_dither` were transcribed by reading; C19 ties the encoder lists, the
+    kinds and `pick_encoder`, C14 ties `encoding_support()`, C10 ties the write sizes of the same
+    loops).
+ 2. every per-unit closure is a FUNCTION of the arguments the model gives it (and of the options,
+    which are the same for the whole image and its fragments up to `parallel`, a field no encoder
+    body reads — `grep parallel src/encode`): no state kept between calls (statics,
+    RNG, clock), the output slot is overwritten, never read.  For family (a) additionally: the
+    closure handed to `for_each_chunk` encodes pixel by pixel (`for (i, o) in line.iter().zip(out)`,
+    `convert_channels_for`, `copy_from_slice`), and for all families the conversion of the input
+    colour format (`as_rgba_f32`, `convert_to_rgba_f32`) is per pixel.  For family (c) NOTHING more is
+    needed: `encode_block` may read the whole slice it is handed (block-local dithering, whatever).
+ 3. a fragment (`ImageView::cropped`, full width) yields through `rows()` exactly the corresponding
+    rows of the image, and a `Vec<u8>` writer receives the writes in program order.
+ 4. anything about real threads (rayon, `Mutex`): the scheduler is an arbitrary permutation of job
+    completions.
 -/
 import DdsModel.Proofs.Split
+import DdsModel.Proofs.EncRows
+import DdsModel.Proofs.FormatTables
 import DdsModel.Drv.C14
 namespace Dds.C14
 open Dds
@@ -231,10 +256,10 @@ theorem written_bytes_order_independent {β : Type} (n : Nat) (r : Nat → List 
 
 /-- An encoder is *row-group local* for split height `sh` when its output is the concatenation of
 the outputs of an encoder of single row groups (`sh` consecutive rows, the last group possibly
-shorter), applied to the groups in order.  ASSUMPTION about each encoder family, not proved:
-true by reading (`for_each_f32_rgba_rows` hands out `BLOCK_HEIGHT` rows at a time, bottom padding
-replicates rows of the final group only, block-local dithering; global error diffusion is excluded
-by `single_fragment_iff`) and validated on every run by the byte comparison of the tie. -/
+shorter), applied to the groups in order.  A hypothesis of `fragmentwise_eq_whole`; PROVED below for
+the data-flow model of every encoder family that can be split (`row_group_local_uncompressed`,
+`row_group_local_subsample`, `row_group_local_block`) and discharged for all formats in
+`fragmentwise_eq_whole_all_families`. -/
 def RowGroupLocal {ρ β : Type} (enc : List ρ → List β) (sh : Nat) : Prop :=
   ∃ encGroup : List ρ → List β, ∀ img, enc img = (chunks sh img).flatMap encGroup
 
@@ -303,6 +328,231 @@ theorem fragmentwise_eq_whole {ρ β : Type} (enc : List ρ → List β)
       exact hg fr
     rw [this, ← List.flatMap_assoc, hFk, chunks_flatMap hsh0 hk, hg img]
 
+
+/-! ## the encoder families are row-group local (data-flow model `EncRows.lean`)
+
+From here on `RowGroupLocal` is a THEOREM about the data-flow model of every encoder family, for
+ARBITRARY per-unit functions (one pixel, one block of a row, one block of a row group). -/
+
+open EncRows
+
+/-- **row_group_local_uncompressed.**  `for_each_chunk` (`uncompressed_universal`,
+`uncompressed_untyped`, `copy_directly`), whatever the path (contiguous chunks, row-wise
+fill/flush, direct write) and the buffer size: (1) the bytes are the per-pixel encodings in
+row-major order — chunk boundaries do not matter; (2) row-group local for every group height;
+(3) for EVERY fragmentation of the rows into consecutive fragments (each possibly taking another
+path / buffer size than the whole image) fragment-wise = whole.  `encPx` arbitrary. -/
+theorem row_group_local_uncompressed {α β : Type} (encPx : α → List β) (p : Path) (bufPx : Nat)
+    (hb : 0 < bufPx) :
+    (∀ img, encUncompressed p encPx bufPx img = img.flatMap (fun row => row.flatMap encPx)) ∧
+    (∀ sh, 0 < sh → RowGroupLocal (encUncompressed p encPx bufPx) sh) ∧
+    (∀ (p' : Path) (bufPx' : Nat), 0 < bufPx' → ∀ frags : List (List (List α)),
+      (frags.map (encUncompressed p' encPx bufPx')).flatten =
+        encUncompressed p encPx bufPx frags.flatten) := by
+  refine ⟨fun img => encUncompressed_eq p encPx hb img, ?_, ?_⟩
+  · intro sh hsh
+    refine ⟨fun g => g.flatMap (encPixels encPx), fun img => ?_⟩
+    rw [encUncompressed_eq p encPx hb, chunks_flatMap_flatMap hsh]
+  · intro p' bufPx' hb' frags
+    have : frags.map (encUncompressed p' encPx bufPx') =
+        frags.map (fun f => f.flatMap (encPixels encPx)) :=
+      List.map_congr_left (fun f _ => encUncompressed_eq p' encPx hb' f)
+    rw [this, encUncompressed_eq p encPx hb, map_flatMap_flatten]
+
+/-- **row_group_local_subsample.**  `uncompressed_universal_subsample` with a per-block function
+that ignores the row index (`universal_subsample!`: the 2x1 formats and R1_UNORM without
+dithering): (1) when the chunk size is a multiple of the block width (`BUFFER_PIXELS / bw * bw`) a
+row's output is `f` over its blocks of `bw` pixels, the last one padded by repeating the row's last
+pixel — independent of the chunking; (2) row-group local for every group height; (3) fragment-wise
+= whole for EVERY fragmentation of the rows.  `f` arbitrary; (2), (3) need nothing about `bw`,
+`chunkPx`. -/
+theorem row_group_local_subsample {α β : Type} (bw chunkPx : Nat) (f : List α → List β) :
+    (0 < bw → 0 < chunkPx → bw ∣ chunkPx → ∀ img,
+      encSubsample bw chunkPx (fun _ => f) img =
+        img.flatMap (fun row => (rowBlocks bw row).flatMap f)) ∧
+    (∀ sh, 0 < sh → RowGroupLocal (encSubsample bw chunkPx (fun _ => f)) sh) ∧
+    (∀ frags : List (List (List α)),
+      (frags.map (encSubsample bw chunkPx (fun _ => f))).flatten =
+        encSubsample bw chunkPx (fun _ => f) frags.flatten) := by
+  have hrow : ∀ img, encSubsample bw chunkPx (fun _ => f) img =
+      img.flatMap (subsampleRow bw chunkPx f) :=
+    fun img => encSubsampleFrom_const bw chunkPx f img 0
+  refine ⟨?_, ?_, ?_⟩
+  · intro hbw hc hd img
+    rw [hrow]
+    congr 1
+    funext row
+    exact subsampleRow_eq hbw hc hd f row
+  · intro sh hsh
+    refine ⟨fun g => g.flatMap (subsampleRow bw chunkPx f), fun img => ?_⟩
+    rw [hrow, chunks_flatMap_flatMap hsh]
+  · intro frags
+    have : frags.map (encSubsample bw chunkPx (fun _ => f)) =
+        frags.map (fun fr => fr.flatMap (subsampleRow bw chunkPx f)) :=
+      List.map_congr_left (fun fr _ => hrow fr)
+    rw [this, hrow, map_flatMap_flatten]
+
+/-- **the Bayer variant** (`universal_subsample_dither!`, R1_UNORM with colour dithering): the
+per-block function receives `y_index` of `image.rows().enumerate()` — the row index WITHIN THE
+IMAGE HANDED TO THE ENCODER, i.e. fragment-relative — and uses `BAYER_8X8[block_y % 8]`.  What
+fragment-wise = whole needs here is exactly: the dependence on `y` is periodic with a period `P`
+that divides the height of every fragment but the last.  A split height of 1 does not give that
+(example below); the encoder is therefore sound only because it is never split
+(`fragmentwise_eq_whole_all_families`, case `bayer`). -/
+theorem subsample_rowindex_fragmentwise {α β : Type} (bw chunkPx P : Nat)
+    (f : Nat → List α → List β) (hper : ∀ y, f (y + P) = f y) :
+    ∀ frags : List (List (List α)), (∀ fr ∈ frags.dropLast, P ∣ fr.length) →
+      (frags.map (encSubsample bw chunkPx f)).flatten = encSubsample bw chunkPx f frags.flatten :=
+  fragments_of_periodic (fun y l => encSubsampleFrom bw chunkPx f y l) (fun _ => rfl)
+    (fun y a b => encSubsampleFrom_append bw chunkPx f a b y)
+    (fun y l => encSubsampleFrom_periodic bw chunkPx f hper l y)
+
+/-- **row_group_local_block.**  `block_universal` over `for_each_f32_rgba_rows`: (1) the buffers
+handed to the closure are the chunks of `bh` rows, only a short LAST chunk being padded — with
+copies of ITS first row; (2) full groups are not padded; (3) row-group local for every multiple of
+`bh`; (4) for every fragmentation in which all fragments but the last have a height that is a
+multiple of `bh`, fragment-wise = whole: the only padded group is the last group of the last
+fragment, it consists of the same rows in both runs.  `encBlock` (which receives the slice of the
+group buffer starting at the block, and the pitch — or the padded copy of a partial block) is
+arbitrary, as are `w` and `bw` (partial blocks at the right edge, `w = 0`). -/
+theorem row_group_local_block {α β : Type} (bw bh w : Nat) (encBlock : List α → Nat → List β)
+    (hbh : 0 < bh) :
+    (∀ img : List (List α), rowGroupBuffers bh img = (chunks bh img).map (padRows bh)) ∧
+    (∀ g : List (List α), bh ≤ g.length → padRows bh g = g) ∧
+    (∀ k, 0 < k → RowGroupLocal (encBlocks bw bh w encBlock) (k * bh)) ∧
+    (∀ frags : List (List (List α)), (∀ fr ∈ frags.dropLast, bh ∣ fr.length) →
+      (frags.map (encBlocks bw bh w encBlock)).flatten =
+        encBlocks bw bh w encBlock frags.flatten) :=
+  ⟨rowGroupBuffers_eq hbh, fun _ h => padRows_of_length_ge h,
+   fun _ hk => ⟨_, encBlocks_eq_mul hbh hk encBlock⟩,
+   fragments_of_groupLocal hbh _ _ (encBlocks_eq hbh encBlock)⟩
+
+/-- **what the per-block function sees.**  When `encode_block` reads the slice it is handed the way
+every BCn encoder does (`get_4x4_*`: `block[i * 4 + j] = data[i * row_pitch + j]`, `blockAt`), the
+bytes of an image (rows of `w` pixels) are: for every chunk of `bh` rows (a short last chunk
+completed with copies of its first row), for every block column left to right, the per-block
+function `g` of the `bw × bh` pixels of that block — a block cut by the right edge being completed
+by repeating the last pixel of each of its rows.  `g` arbitrary: a block's bytes depend on that
+block's pixels only, whatever the fragmentation. -/
+theorem block_encoder_sees_blocks {α β : Type} (bw bh w : Nat) (hbw : 0 < bw) (hbh : 0 < bh)
+    (g : List α → List β) (img : List (List α)) (hu : ∀ r ∈ img, r.length = w) :
+    encBlocks bw bh w (fun data pitch => g (blockAt bw bh data pitch)) img =
+      (chunks bh img).flatMap (fun grp => (groupBlocks bw w (padRows bh grp)).flatMap g) :=
+  encBlocks_blockAt hbw hbh g img hu
+
+/-- **the same loops as C10.**  The sizes of the successive writes of the data-flow model are the
+ones of the length model `EncLen.lean`, whose totals are tied to the library by C10: contiguous
+path, row-wise path (both for encoded pixels of `encBpp` bytes and rows of `w` pixels), and the
+number of row-group buffers of `for_each_f32_rgba_rows`. -/
+theorem write_sizes_match_c10 {α β : Type} (encPx : α → List β) (encBpp bufPx w : Nat)
+    (hl : ∀ x, (encPx x).length = encBpp) (hb : 0 < bufPx) (img : List (List α))
+    (hu : ∀ r ∈ img, r.length = w) :
+    (contigWrites encPx bufPx img).map List.length = chunksContig (w * img.length) bufPx encBpp ∧
+    (rowsWrites encPx bufPx img).map List.length = chunksRows w img.length bufPx encBpp ∧
+    (∀ bh, (rowGroupBuffers bh img).length = rowGroups img.length bh) := by
+  refine ⟨?_, ?_, fun bh => rowGroupBuffers_length bh img⟩
+  · rw [contigWrites_lengths encPx hl hb, flatten_length_uniform img hu]
+  · exact rowsWritesAux_lengths encPx hl hb img 0 [] hu (by simp) (by omega)
+
+/-- **not split ⇒ nothing to prove about the encoder**: a view without fragment height has one
+fragment, the image; fragment-wise = whole for ANY function `enc`, local or not. -/
+theorem fragmentwise_eq_whole_unsplit {ρ β : Type} (enc : List ρ → List β)
+    (w : Nat) (sup : Option Support) (dith : Dithering) (q : Quality) (img : List ρ)
+    (hns : (SplitView.new w img.length sup dith q).fragmentHeight = none) :
+    let sv := SplitView.new w img.length sup dith q
+    ((List.range sv.len).map (fun i => enc (sv.fragmentRows img i))).flatten = enc img := by
+  intro sv
+  obtain ⟨h1, h2, _⟩ := single_fragment_whole w img.length sup dith q hns
+  have e1 : sv.len = 1 := h1
+  have e2 : sv.get 0 = some (0, img.length) := h2
+  rw [e1]
+  simp [SplitView.fragmentRows, e2]
+
+/-- **the families that are NOT row-group local are never split**: (d) a format without split
+height (`EncoderSet::new_bi_planar`: plane 2 is written after the last row pair) and (e) a format
+whose dithering is global (error diffusion carried from row to row; the Bayer row index) when the
+requested dithering meets the supported one — for every size and quality.  These are two of the
+disjuncts of `single_fragment_iff`. -/
+theorem stateful_families_unsplit (w h : Nat) (s : Support) (dith : Dithering) (q : Quality) :
+    (s.splitHeight = none → (SplitView.new w h (some s) dith q).fragmentHeight = none) ∧
+    (s.localDithering = false → dith.intersect s.dithering ≠ .none →
+      (SplitView.new w h (some s) dith q).fragmentHeight = none) ∧
+    ((s.splitHeight = none ∨ (s.localDithering = false ∧ dith.intersect s.dithering ≠ .none)) →
+      NoSplit w h (some s) dith q) :=
+  ⟨fragmentHeight_none_of_no_split_height w h s dith q,
+   fragmentHeight_none_of_global_dithering w h s dith q,
+   fun h => h.elim (fun h1 => Or.inr (Or.inr (Or.inr (Or.inl ⟨s, rfl, h1⟩))))
+     (fun h2 => Or.inr (Or.inr (Or.inr (Or.inr (Or.inl ⟨s, rfl, h2.1, h2.2⟩)))))⟩
+
+/-- **the pinned tables** (all 73 formats × 12 input colours × 4 dithering options, complete
+evaluation): the encoder table of C19 and the support table of `Split.lean` agree on dithering /
+split height / local dithering; the advertised split height is a `NonZeroU8` multiple of the block
+height of the format's layout (1 for the uncompressed and 2x1 / 8x1 formats, 4 for BCn) and absent
+exactly for the bi-planar formats; `pick_encoder` always finds an encoder, and it picks a body with
+state across rows (Floyd–Steinberg) or reading the row index (Bayer) only when global dithering
+applies, i.e. when `get_fragment_height` refuses to split. -/
+theorem family_table : ∀ (f : C19.Format) (c : C19.ColorFormat) (d : C19.Dithering),
+    familyCheck f c d = true := by
+  have h : ∀ f : C19.Format,
+      (C19.ColorFormat.all.all fun c => C19.Dithering.all.all fun d => familyCheck f c d) = true :=
+    C19.forall_format (by decide +kernel)
+  intro f c d
+  have h1 := List.all_eq_true.mp (h f) c (C19.ColorFormat.mem_all c)
+  exact List.all_eq_true.mp h1 d (C19.Dithering.mem_all d)
+
+/-- **fragmentwise_eq_whole_all_families.**  `fragmentwise_eq_whole` without the `RowGroupLocal`
+assumption: for every encodable format `f`, input colour `c`, dithering option `d`, quality, width
+and image, if `enc` is an instance (with ARBITRARY per-unit functions) of the data-flow family of
+the encoder `pick_encoder` selects for `(f, c, d)` (`Runs`), then encoding the fragments of
+`SplitView::new(image, f, options)` one by one and concatenating equals encoding the whole image.
+Families (a), (b), (c) because they are row-group local for the advertised split height; (b) with
+row index, (d), (e) because the view is never split. -/
+theorem fragmentwise_eq_whole_all_families {α β : Type}
+    (f : C19.Format) (c : C19.ColorFormat) (d : C19.Dithering) (q : Quality) (w : Nat)
+    (s : C19.EncSet) (i : Nat) (e : C19.Enc) (sup : Support)
+    (hf : C19.encoderSet f = some s) (hpick : s.pick c d = some i) (he : s.encs[i]? = some e)
+    (hsup : supportOf f.name = some (some sup))
+    (enc : List (List α) → List β) (hruns : Runs w s.ctor e.kind f.row.px enc)
+    (img : List (List α)) (hh : img.length < U32) :
+    let sv := SplitView.new w img.length (some sup) (ditheringOf d) q
+    ((List.range sv.len).map (fun i => enc (sv.fragmentRows img i))).flatten = enc img := by
+  have h := family_table f c d
+  unfold familyCheck at h
+  rw [hf] at h
+  simp only [hsup, hpick, he, Bool.and_eq_true] at h
+  obtain ⟨⟨_, hsplit⟩, hkind⟩ := h
+  have hwf : ∀ s', some sup = some s' → s'.WF := by
+    intro s' hs'; cases hs'; exact splitOk_wf hsplit
+  generalize s.ctor = ctor at hruns hsplit hkind
+  generalize e.kind = kind at hruns hkind
+  generalize f.row.px = px at hruns hsplit
+  cases hruns with
+  | uncompressed bpp p encPx bufPx hb =>
+    exact fragmentwise_eq_whole _ w (some sup) _ q img hh hwf
+      (fun s' sh hs' hsh => (row_group_local_uncompressed encPx p bufPx hb).2.1 sh
+        (hwf s' hs' sh hsh).1)
+  | subsample bytes bw chunkPx g =>
+    exact fragmentwise_eq_whole _ w (some sup) _ q img hh hwf
+      (fun s' sh hs' hsh => (row_group_local_subsample bw chunkPx g).2.1 sh (hwf s' hs' sh hsh).1)
+  | bayer bytes bw chunkPx g =>
+    obtain ⟨hl, hd⟩ := kindOk_stateful (Or.inr rfl) hkind
+    exact fragmentwise_eq_whole_unsplit _ w (some sup) _ q img
+      ((stateful_families_unsplit w img.length sup _ q).2.1 hl hd)
+  | fsDither bpp σ step s0 =>
+    obtain ⟨hl, hd⟩ := kindOk_stateful (Or.inl rfl) hkind
+    exact fragmentwise_eq_whole_unsplit _ w (some sup) _ q img
+      ((stateful_families_unsplit w img.length sup _ q).2.1 hl hd)
+  | block bytes bw bh wiring encBlock =>
+    refine fragmentwise_eq_whole _ w (some sup) _ q img hh hwf ?_
+    intro s' sh hs' hsh
+    cases hs'
+    obtain ⟨hbh, k, hk, hshk⟩ := splitOk_bc hsplit sh hsh
+    rw [hshk]
+    exact (row_group_local_block bw bh w encBlock hbh).2.2.1 k hk
+  | biPlanar p1 p2 sx sy kind encPair =>
+    exact fragmentwise_eq_whole_unsplit _ w (some sup) _ q img
+      ((stateful_families_unsplit w img.length sup _ q).1 (splitOk_biPlanar hsplit))
+
 /-! ### non-vacuity -/
 
 /-- a BC1 image that is split: 64 x 200 at Fast quality gives 4 fragments 64,64,64,8 -/
@@ -329,5 +579,69 @@ example : [2, 0, 1].Perm (List.range 3) := by decide
 /-- the identity encoder is row-group local for every split height > 0 -/
 example : RowGroupLocal (fun (img : List Nat) => img) 4 :=
   ⟨fun g => g, fun img => (chunks_flatten (by omega) img).symm⟩
+
+/-! ### non-vacuity and edge cases of the family theorems -/
+
+/-- a block function that shows what it is given: the `bw × bh` pixels at the start of the slice -/
+abbrev showBlock (bw bh : Nat) (data : List Nat) (pitch : Nat) : List Nat := blockAt bw bh data pitch
+
+/-- 3 x 3 image, 2 x 2 blocks: `h` not a multiple of `bh` (the last group is the last row followed
+by a copy of itself), `w` not a multiple of `bw` (partial blocks repeat the last pixel of each row) -/
+example : encBlocks 2 2 3 (showBlock 2 2) [[1, 2, 3], [4, 5, 6], [7, 8, 9]] =
+    [1, 2, 4, 5,  3, 3, 6, 6,   7, 8, 7, 8,  9, 9, 9, 9] := by decide
+
+/-- the same image as fragments of 2 + 1 rows (heights: multiple of `bh`, then the rest) -/
+example : ([[[1, 2, 3], [4, 5, 6]], [[7, 8, 9]]].map (encBlocks 2 2 3 (showBlock 2 2))).flatten =
+    encBlocks 2 2 3 (showBlock 2 2) [[1, 2, 3], [4, 5, 6], [7, 8, 9]] := by decide
+
+/-- the hypothesis on the fragment heights is needed: fragments of 1 + 2 rows differ -/
+example : ([[[1, 2, 3]], [[4, 5, 6], [7, 8, 9]]].map (encBlocks 2 2 3 (showBlock 2 2))).flatten ≠
+    encBlocks 2 2 3 (showBlock 2 2) [[1, 2, 3], [4, 5, 6], [7, 8, 9]] := by decide
+
+/-- empty image, and an image of width 0: no bytes -/
+example : encBlocks 4 4 7 (showBlock 4 4) [] = [] := by decide
+example : encBlocks 4 4 0 (showBlock 4 4) [[], [], []] = [] := by decide
+example : encUncompressed .rowWise (fun x : Nat => [x]) 3 [] = [] := by decide
+
+/-- the row-wise path with a buffer of 3 pixels over rows of 2 pixels (flushes cross the rows) -/
+example : rowsWrites (fun x : Nat => [x]) 3 [[1, 2], [3, 4], [5, 6], [7, 8]] =
+    [[1, 2, 3], [4, 5, 6], [7, 8]] := by decide
+
+/-- 8x1 blocks, a row of 3 pixels: one block, padded with the last pixel -/
+example : processSubsample 8 (fun b : List Nat => [b.sum]) [1, 2, 3] = [1 + 2 + 3 * 6] := by
+  simp [processSubsample, chunks]
+
+/-- the Bayer row index `block_y % 8` is periodic with period 8: fragments of 8k rows would do -/
+example (g : Nat → List Nat → List Nat) : ∀ y, (fun y => g (y % 8)) (y + 8) = (fun y => g (y % 8)) y := by
+  intro y; simp
+
+/-- (b) with the row index is NOT fragment-wise for a split height of 1 … -/
+example : ([[[0]], [[0]]].map (encSubsampleFrom 1 1 (fun y (_ : List Nat) => [y]) 0)).flatten ≠
+    encSubsampleFrom 1 1 (fun y (_ : List Nat) => [y]) 0 [[0], [0]] := by
+  simp [encSubsampleFrom, subsampleRow, chunks, processSubsample]
+
+/-- … (d) bi-planar is not: plane 2 comes after ALL of plane 1 … -/
+example : ([[[0], [0]], [[0], [0]]].map (encBiPlanar (fun (_ : List (List Nat)) => ([1], [2])))).flatten
+    ≠ encBiPlanar (fun _ => ([1], [2])) [[0], [0], [0], [0]] := by decide
+
+/-- … (e) nor is a state carried from row to row -/
+example : ([[[0]], [[0]]].map (encDither (fun (s : Nat) (_ : List Nat) => ([s], s + 1)) 0)).flatten ≠
+    encDither (fun (s : Nat) (_ : List Nat) => ([s], s + 1)) 0 [[0], [0]] := by decide
+
+/-- the hypotheses of `fragmentwise_eq_whole_all_families` are satisfiable: BC1 from RGBA u8 without
+dithering (family (c), blocks 4 x 4), R1_UNORM with colour dithering (Bayer, never split), NV12 -/
+example : C19.encoderSet .BC1_UNORM = some ⟨.bc, [.bcCA C19.wJoint]⟩ ∧
+    (⟨.bc, [.bcCA C19.wJoint]⟩ : C19.EncSet).pick C19.rgbaU8 C19.Dithering.none = some 0 ∧
+    supportOf C19.Format.BC1_UNORM.name = some (some (supBc .colorAndAlpha bc1Frag)) ∧
+    Runs 7 .bc (C19.Enc.bcCA C19.wJoint).kind C19.Format.BC1_UNORM.row.px
+      (encBlocks 4 4 7 (showBlock 4 4)) :=
+  ⟨rfl, by decide, by decide, Runs.block 8 4 4 C19.wJoint _⟩
+example : (⟨.plain, [.universal, ⟨.all, ⟨none, true, false⟩, .bayer⟩]⟩ : C19.EncSet).pick
+      C19.rgbaU8 ⟨true, false⟩ = some 1 ∧
+    Runs (β := Nat) 9 .plain .bayer C19.Format.R1_UNORM.row.px
+      (encSubsample 8 512 (fun y (b : List Nat) => [y % 8 + b.sum])) :=
+  ⟨by decide, Runs.bayer 1 8 512 _⟩
+example : Runs (β := Nat) 4 .biPlanar .plain C19.Format.NV12.row.px
+    (encBiPlanar (fun (_ : List (List Nat)) => ([1], [2]))) := Runs.biPlanar 1 2 2 2 _ _
 
 end Dds.C14
